@@ -1,6 +1,7 @@
 package main
 
 import (
+	"os"
 	"fmt"
 	"math/big"
 	"go/types"
@@ -30,8 +31,37 @@ type entryInfo struct {
 	A0     string
 }
 
-func (p *Prog) verifyFunc(t target, findings []*Finding) (fr *FuncResult) {
+// verifyFuncAll: one result per case of the function's case analysis (one in all when it has none).
+func (p *Prog) verifyFuncAll(t target, findings []*Finding) []*FuncResult {
+	sp := p.cs.Specs[t.pkg+"::"+t.ref]
+	if sp == nil || len(sp.Cases) == 0 {
+		return []*FuncResult{p.verifyFunc(t, findings, -1)}
+	}
+	var out []*FuncResult
+	for i := range sp.Cases {
+		if f := os.Getenv("VERIF_CASE"); f != "" && !strings.Contains(sp.Cases[i].Label, f) {
+			continue // development aid: one case only
+		}
+		thoroughOnly := false
+		for _, pr := range sp.Cases[i].Props {
+			if pr == "THOROUGH" {
+				thoroughOnly = true
+			}
+		}
+		if thoroughOnly && p.tier != "thorough" {
+			p.notes[fmt.Sprintf("%s: case %s is verified in the thorough tier only", shortPkg(t.pkg)+t.ref, sp.Cases[i].Label)] = true
+			continue
+		}
+		out = append(out, p.verifyFunc(t, findings, i))
+	}
+	return out
+}
+
+func (p *Prog) verifyFunc(t target, findings []*Finding, caseIdx int) (fr *FuncResult) {
 	fr = &FuncResult{Target: t, Name: shortPkg(t.pkg) + t.ref, kf: map[int]string{}}
+	if sp := p.cs.Specs[t.pkg+"::"+t.ref]; sp != nil && caseIdx >= 0 {
+		fr.Name += "@" + sp.Cases[caseIdx].Label
+	}
 	defer func() {
 		if r := recover(); r != nil {
 			if ee, ok := r.(engineError); ok {
@@ -96,6 +126,17 @@ func (p *Prog) verifyFunc(t target, findings []*Finding) (fr *FuncResult) {
 		for _, rq := range sp.Requires {
 			c.assume("true", env.evalBool(rq.Expr))
 		}
+		if caseIdx >= 0 {
+			var alts []string
+			for _, cs := range sp.Cases {
+				alts = append(alts, env.evalBool(cs.Expr))
+			}
+			if caseIdx == 0 {
+				// the cases cover the preconditions
+				c.oblige(&Obl{Name: fr.Name + ":requires:cases-complete", Func: fr.Name, Kind: "requires", Label: "cases-complete", Props: e.props, Expect: "unsat"}, "true", c.B("(or %s false)", strings.Join(alts, " ")))
+			}
+			c.assume("true", alts[caseIdx])
+		}
 		for _, m := range sp.Modifies {
 			e.frame = append(e.frame, env.modLoc(m))
 		}
@@ -118,6 +159,12 @@ func (p *Prog) verifyFunc(t target, findings []*Finding) (fr *FuncResult) {
 	// vacuity: the preconditions must be satisfiable
 	c.oblige(&Obl{Name: fr.Name + ":vacuity:requires-satisfiable", Func: fr.Name, Kind: "vacuity", Label: "requires-satisfiable", Props: e.props, Expect: "sat"}, "true", "false")
 	_, fin := e.run(st, args)
+	if e.pruneDir != "" {
+		if os.Getenv("VERIF_DEBUG") == "" {
+			os.RemoveAll(e.pruneDir)
+		}
+		p.notes[fmt.Sprintf("%s: %d branches refuted by the solver under the preconditions were not executed (prune-paths)", fr.Name, e.pruned)] = true
+	}
 	if fin == nil {
 		fail("%s: no reachable return", fr.Name)
 	}
